@@ -226,7 +226,9 @@ func newAfterTerminate(r *Result) bool {
 		if x.Kind == "ev.end" && x.Aux == "delivered" && r.Spec.Events[x.K].Kind == "terminate" && t < 0 {
 			t = x.T
 		}
-		if x.Kind == "up.new" && t >= 0 && x.T > t {
+		// (doRetry checks for a pending local reply and then starts the attempt: a TerminateStream that returns within that
+		// check-then-act window - microseconds - is not after the decision; 2 ms separate the two for sure)
+		if x.Kind == "up.new" && t >= 0 && x.T > t+2000 {
 			return true
 		}
 	}
